@@ -84,7 +84,7 @@ def channel_fidelity(choi_1: np.ndarray, choi_2: np.ndarray, eps: float = 1e-7) 
         raise ValueError("The Choi matrix provided must be square.")
 
     choi_dim = choi_dim_x
-    dim = int(np.log2(choi_dim))
+    dim = int(np.round(np.sqrt(choi_dim)))
 
     lam = cvxpy.Variable(nonneg=True)
     q_var = cvxpy.Variable((choi_dim, choi_dim), complex=True)
@@ -94,7 +94,9 @@ def channel_fidelity(choi_1: np.ndarray, choi_2: np.ndarray, eps: float = 1e-7) 
 
     constraints.append(cvxpy.bmat([[choi_1, q_var.H], [q_var, choi_2]]) >> 0)
 
-    constraints.append(lam * np.identity(dim) <= cvxpy.real(partial_trace(q_var, [1], [dim, dim])))
+    # lam * I <= Re(Tr_out Q) in the positive semidefinite order, with Re(X) = (X + X^*) / 2.
+    q_marginal = partial_trace(q_var, [1], [dim, dim])
+    constraints.append((q_marginal + q_marginal.H) / 2 >> lam * np.identity(dim))
 
     problem = cvxpy.Problem(objective, constraints)
 
